@@ -77,6 +77,7 @@ func verifTermState(t *Terminal, m map[string]interface{}) {
 	m["cy"] = t.cy
 	m["offset"] = t.offset
 	m["xoffset"] = t.xoffset
+	m["cur"] = t.currentIndex()
 	m["cols"] = t.areaColumns
 	m["lines"] = t.areaLines
 	m["multi"] = t.multi
